@@ -146,6 +146,16 @@ def h_values(shape):
             wf = CompositeWaveform(ConstantWaveform(d1, v), RampWaveform(d2, a, b))
             expect = [v] * d1 + [a + (b - a) * i / (d2 - 1) for i in range(d2)]
             params = None
+        elif cls == "nested":
+            # a composite that contains a composite with different children: samples are the in-order concatenation
+            v, a, b = inp.real("v"), inp.real("start"), inp.real("stop")
+            xs = [inp.real("s%d" % i) for i in range(2)]
+            inner = CompositeWaveform(RampWaveform(3, a, b), ConstantWaveform(2, v))
+            odd = shape["nest"] % 2
+            wf = CompositeWaveform(inner, CustomWaveform(xs), ConstantWaveform(1, b)) if odd else CompositeWaveform(CustomWaveform(xs), inner)
+            flat = [a + (b - a) * i / 2 for i in range(3)] + [v, v]
+            expect = (flat + xs + [b]) if odd else (xs + flat)
+            params = None
         elif cls == "blackman":
             area = inp.real("area")
             wf = BlackmanWaveform(d, area)
@@ -157,9 +167,15 @@ def h_values(shape):
 
             kw = dict(shape["kw"])
             wf = InterpolatedWaveform(d, list(shape["values"]), **kw)
+            try:
+                # every waveform - the derived copies included - has computable samples
+                for w_ in (wf, wf * 2.0, wf * 0.0, -wf, wf.change_duration(2 * d - 1)):
+                    w_.samples
+            except Exception:  # noqa: BLE001
+                return [("k2:samples_computable", False)]
             s0 = [float(x) for x in wf.samples.as_array(detach=True)]
             obs.append(("k2:n_samples", len(s0) == d))
-            for kk in (2.0, -0.5):
+            for kk in (2.0, -0.5, 0.0):
                 sk = [float(x) for x in (wf * kk).samples.as_array(detach=True)]
                 obs.append(("k2:mul_scales", len(sk) == d and all(abs(x - kk * y) <= 1e-6 * (1 + abs(y)) for x, y in zip(sk, s0))))
             sn = [float(x) for x in (-wf).samples.as_array(detach=True)]
@@ -384,11 +400,14 @@ def kernels(tier):
             if cls == "custom" and d > 5:
                 continue
             ks.append(("values", dict(cls=cls, dur=d, div=(d <= 4), eq=(d <= 3))))
+    for d in (7, 8):  # (odd/even select the two nestings; the sample count is fixed by the parts)
+        ks.append(("values", dict(cls="nested", dur=(8 if d % 2 else 7), nest=d, div=False, eq=False)))
     for d in ((5, 12) if quick else (3, 5, 8, 12, 20)):
         for beta in (3.0, 14.0):
             ks.append(("values", dict(cls="kaiser", dur=d, beta=beta, div=False, eq=False)))
     for values, kw in (([0.0, 2.0, 1.0], dict(times=[0.0, 1.0, 0.5], interpolator="interp1d")), ([0.0, 2.0, 1.0], dict()),
-                       ([1.0, 3.0, 0.5, 2.0], dict(times=[0.0, 0.2, 0.7, 1.0])), ([1.0, 3.0, 0.5, 2.0], dict(interpolator="interp1d", kind="quadratic"))):
+                       ([1.0, 3.0, 0.5, 2.0], dict(times=[0.0, 0.2, 0.7, 1.0])), ([1.0, 3.0, 0.5, 2.0], dict(interpolator="interp1d", kind="quadratic")),
+                       ([0.0, 0.0, 0.0], dict())):
         ks.append(("values", dict(cls="interp", dur=21, values=values, kw=kw)))
     ks.append(("pulse", dict(what="init")))
     for kind in ("custom", "ramp", "const"):
